@@ -61,15 +61,23 @@ package runner
 //@ extern remedyOnRequest
 //@   modifies heap
 //@   ensures result1 == nil ==> reqOK(result0)
+// ghost record of the call (sequence) identity of the latest response message handed to a remedy plugin
+//@ ghost var gPlugAsked bool
+//@ ghost var gPlugID string
+//@ ghost var gPlugSeq string
 //@ extern remedyOnResponse
-//@   modifies heap
+//@   params args
+//@   modifies heap, gPlugAsked, gPlugID, gPlugSeq
 //@   ensures result1 == nil ==> respOK(result0)
+//@   ensures gPlugAsked && gPlugID == args.ID && gPlugSeq == args.SequenceID
+//@   ensures[plugins-leave-the-policy-tree-alone] old(polValues() && polOwn()) ==> polValues() && polOwn()
 //@ iface ReqLunarAction.EnsureRequestIsUpdated
 //@   params r
 //@   modifies heap
+// (the three implementations are proved in the actions package: the message keeps its ID and SequenceID)
 //@ iface RespLunarAction.EnsureResponseIsUpdated
 //@   params r
-//@   modifies heap
+//@   modifies mapof(r.Headers), r.Body, r.Status
 //@ pure ReqLunarAction.ReqRunResult
 //@ pure RespLunarAction.RespRunResult
 //@ pure Remedy.Type
@@ -93,13 +101,43 @@ package runner
 //@   ensures[noop-only-if-all-noop] result1 == nil ==> (rIsNoOp(result0.action) <==> forall(j, 0, len(remedies), rIsNoOp(acts[j])))
 
 //@ func runOnResponse
-//@   prop C07
+//@   prop C07, C17
 //@   dispatch RespLunarAction.RespPrioritize => *NoOpAction, *ModifyResponseAction, *RetryRequestAction
 //@   ghostlocal acts gmap[int]actions.RespLunarAction
 //@   allocates any
-//@   modifies heap
-//@   loop 1 modifies heap
+//@   modifies heap, gPlugAsked, gPlugID, gPlugSeq
+//@   on entry do gPlugAsked = false
+//@   loop 1 modifies heap, gPlugAsked, gPlugID, gPlugSeq
 //@   loop 1 do acts[idx1 - 1] = action
+//@   loop 1 invariant[policies-untouched] old(polValues() && polOwn()) ==> polValues() && polOwn()
+//@   loop 1 invariant[same-call] args.ID == old(args.ID) && args.SequenceID == old(args.SequenceID) && (gPlugAsked ==> gPlugID == old(args.ID) && gPlugSeq == old(args.SequenceID))
 //@   loop 1 invariant[ok]       respOK(prioritizedAction) && forall(j, 0, idx1, respOK(acts[j]))
 //@   loop 1 invariant[noop-iff] rIsRespNoOp(prioritizedAction) <==> forall(j, 0, idx1, rIsRespNoOp(acts[j]))
 //@   ensures[noop-never-displaces] result1 == nil ==> (rIsRespNoOp(result0.action) <==> forall(j, 0, len(remedies), rIsRespNoOp(acts[j])))
+//@   ensures[plugins-see-the-call-of-the-message] gPlugAsked ==> gPlugID == old(args.ID) && gPlugSeq == old(args.SequenceID)
+//@   ensures[policies-untouched] old(polValues() && polOwn()) ==> polValues() && polOwn()
+
+// ---------------------------------------------------------------- C17: the response remedies (the retry plugin among them) are asked about the call the message belongs to
+// Retries are counted per SequenceID. A response the gateway produced by itself for a request (an "early response":
+// fixed response, throttling 429, cache hit) is run through the response remedies as a response OF THAT REQUEST: same
+// transaction ID, same SequenceID - so a retried request that is answered early again is counted against the same call.
+//@ extern DiagnosisWorker.AddResponseToTask
+//@   modifies heap
+//@ extern DiagnosisWorker.NotifyTaskReady
+//@   modifies heap
+//@ extern DiagnosisWorker.AddRequestToTask
+//@   modifies heap
+//@ func getOnResponseRunResult
+//@   prop C17
+//@   requires services != nil && policyTree != nil && globalPolicies != nil && polValues() && polOwn()
+//@   allocates any
+//@   modifies heap, gPlugAsked, gPlugID, gPlugSeq
+//@   ensures[plugins-see-the-call-of-the-message] gPlugAsked ==> gPlugID == onResponse.ID && gPlugSeq == onResponse.SequenceID
+//@ func obtainModifiedEarlyResponse
+//@   prop C17
+//@   requires services != nil && policiesConfig != nil && policyTree != nil && polValues() && polOwn()
+//@   requires[no-typed-nil-action] typeis(initialReqRunResult.action, *actions.EarlyResponseAction) ==> initialReqRunResult.action.(*actions.EarlyResponseAction) != nil
+//@   allocates any
+//@   modifies heap, gPlugAsked, gPlugID, gPlugSeq
+//@   on entry do gPlugAsked = false
+//@   ensures[early-response-belongs-to-the-call-of-its-request] gPlugAsked ==> gPlugID == onRequest.ID && gPlugSeq == onRequest.SequenceID
